@@ -88,6 +88,7 @@ def step (st : St) (toks : List String) : St × String :=
     let parts := (List.range n).map fun t => s!"t{t}=[{",".intercalate (results evs2 t)}] "
     ({ st with p := c2.p, progs := [] }, String.join parts ++ "final=" ++ finalDump c2.p st.keys)
   | "window" :: _ => (st, "-")
+  | "timerwindow" :: _ => (st, "-")
   | "stress" :: _ => (st, "-")
   | "wseq" :: _ => (st, "-")
   | _ => (st, "bad-op")
